@@ -238,11 +238,11 @@ def dist_checks(ctx, drv):
         b = sorted(zip(np.round(mx, 12).tolist(), np.round(my, 12).tolist()))
         if len(a) != len(b):
             ctx.disagreements.append({'what': 'number of points', 'impl': len(a), 'model': len(b), 'case': case})
-            continue
-        for (ax, ay), (bx, by) in zip(a, b):
-            if not (ctx.cmp('dist.x', ax, bx, case, rtol=0, atol=1e-11) and
-                    ctx.cmp('dist.y', ay, by, case, rtol=0, atol=1e-11)):
-                break
+        else:
+            for (ax, ay), (bx, by) in zip(a, b):
+                if not (ctx.cmp('dist.x', ax, bx, case, rtol=0, atol=1e-11) and
+                        ctx.cmp('dist.y', ay, by, case, rtol=0, atol=1e-11)):
+                    break
         # the property's clauses on the implementation
         expected = {'line_x': n, 'line_y': n, 'positive_line_x': n, 'positive_line_y': n, 'cross': 2 * n, 'ring': n,
                     'hexapolar': 1 + 3 * n * (n + 1), 'gq': 3 * n, 'gq_sym': n, 'random': n}.get(name)
